@@ -4,11 +4,11 @@ import os
 
 # property -> rules deciding its structural clauses (DESIGN.md section 4)
 PROPS = {
-    'C01': ['DISPATCH', 'ACDUAL'],
+    'C01': ['DISPATCH', 'ACDUAL', 'ORDTOTAL', 'FRAMERESET'],
     'C02': ['UNIONCONTRIB', 'PRODUCT', 'WORKLIST', 'COW'],
     'C03': ['SIZEEQ', 'WORKLIST', 'COW'],
     'C07': ['DISPATCH', 'ACDUAL'],
-    'C09': ['DISPATCH', 'ACDUAL', 'MEMO', 'HASHEQ'],
+    'C09': ['DISPATCH', 'ACDUAL', 'MEMO', 'HASHEQ', 'ORDTOTAL'],
     'C10': ['UNIONCONTRIB', 'PRODUCT', 'PAIRFIELD', 'FINCHK', 'WORKLIST', 'COW'],
     'C11': ['COW'],
     'C20': ['INIT', 'FALLOFF', 'PAIRFIELD'],
